@@ -72,8 +72,8 @@ var stdFns = []stdFn{
 	{"index", stdlib.IndexFunc, isIndex, false, func(x *opctx) []cty.Value { return []cty.Value{x.v[0], indexKey(x)} }},
 	{"hasindex", stdlib.HasIndexFunc, isIndex, false, func(x *opctx) []cty.Value { return []cty.Value{x.v[0], indexKey(x)} }},
 	{"jsonencode", stdlib.JSONEncodeFunc, nil, false, a1},
-	{"format", stdlib.FormatFunc, nil, false, func(x *opctx) []cty.Value { return []cty.Value{cty.StringVal("%v|%#v"), x.v[0], x.v[1]} }},
-	{"formatlist", stdlib.FormatListFunc, isSeq, false, func(x *opctx) []cty.Value { return []cty.Value{cty.StringVal("%v-%v"), x.v[0], x.v[1]} }},
+	{"format", stdlib.FormatFunc, nil, false, func(x *opctx) []cty.Value { return []cty.Value{fmtSpec(x, "%v|%#v"), x.v[0], x.v[1]} }},
+	{"formatlist", stdlib.FormatListFunc, isSeq, false, func(x *opctx) []cty.Value { return []cty.Value{fmtSpec(x, "%v-%v"), x.v[0], x.v[1]} }},
 	{"join", stdlib.JoinFunc, isStrList, false, func(x *opctx) []cty.Value { return []cty.Value{cty.StringVal(","), x.v[0]} }},
 	{"upper", stdlib.UpperFunc, isStr, false, a1},
 	{"title", stdlib.TitleFunc, isStr, false, a1},
@@ -93,6 +93,89 @@ var stdFns = []stdFn{
 	{"signum", stdlib.SignumFunc, isNum, false, a1},
 	{"and", stdlib.AndFunc, isBool, true, a2},
 	{"not", stdlib.NotFunc, isBool, false, a1},
+	// the rest of the standard library (session 4): every global Function object is shared by the goroutines of the
+	// schedule stage, whatever it keeps inside (compiled patterns, tables, scratch buffers)
+	{"or", stdlib.OrFunc, isBool, true, a2},
+	{"subtract", stdlib.SubtractFunc, isNum, true, a2},
+	{"modulo", stdlib.ModuloFunc, isNum, true, a2},
+	{"negate", stdlib.NegateFunc, isNum, false, a1},
+	{"floor", stdlib.FloorFunc, isNum, false, a1},
+	{"log", stdlib.LogFunc, isNum, true, a2},
+	{"pow", stdlib.PowFunc, isNum, false, func(x *opctx) []cty.Value { return []cty.Value{x.v[0], smallInt(x)} }},
+	{"lessthan", stdlib.LessThanFunc, isNum, true, a2},
+	{"lessthanorequalto", stdlib.LessThanOrEqualToFunc, isNum, true, a2},
+	{"greaterthan", stdlib.GreaterThanFunc, isNum, true, a2},
+	{"greaterthanorequalto", stdlib.GreaterThanOrEqualToFunc, isNum, true, a2},
+	{"range", stdlib.RangeFunc, isNum, false, func(x *opctx) []cty.Value { return []cty.Value{smallInt(x), cty.NumberIntVal(int64(3 + x.k%5))} }},
+	{"parseint", stdlib.ParseIntFunc, nil, false, func(x *opctx) []cty.Value {
+		return []cty.Value{cty.StringVal(parseIntTexts[int(x.k%uint64(len(parseIntTexts)))]), cty.NumberIntVal(int64(2 + x.k%35))}
+	}},
+	{"lower", stdlib.LowerFunc, isStr, false, a1},
+	{"chomp", stdlib.ChompFunc, isStr, false, a1},
+	{"trimspace", stdlib.TrimSpaceFunc, isStr, false, a1},
+	{"trim", stdlib.TrimFunc, isStr, true, a2},
+	{"trimprefix", stdlib.TrimPrefixFunc, isStr, true, a2},
+	{"trimsuffix", stdlib.TrimSuffixFunc, isStr, true, a2},
+	{"indent", stdlib.IndentFunc, isStr, false, func(x *opctx) []cty.Value { return []cty.Value{smallInt(x), x.v[0]} }},
+	{"regex", stdlib.RegexFunc, isStr, false, func(x *opctx) []cty.Value { return []cty.Value{rePattern(x), x.v[0]} }},
+	{"regexall", stdlib.RegexAllFunc, isStr, false, func(x *opctx) []cty.Value { return []cty.Value{rePattern(x), x.v[0]} }},
+	{"regexreplace", stdlib.RegexReplaceFunc, isStr, true, func(x *opctx) []cty.Value { return []cty.Value{x.v[0], rePattern(x), x.v[1]} }},
+	{"jsondecode", stdlib.JSONDecodeFunc, nil, false, func(x *opctx) []cty.Value {
+		// the JSON text of a shared value (or, for values JSON cannot carry, a fixed document)
+		if r, err := stdlib.JSONEncodeFunc.Call([]cty.Value{deepUnmark(x.v[0])}); err == nil && r.IsKnown() {
+			return []cty.Value{r}
+		}
+		return []cty.Value{cty.StringVal(jsonDocs[int(x.k%uint64(len(jsonDocs)))])}
+	}},
+	{"csvdecode", stdlib.CSVDecodeFunc, nil, false, func(x *opctx) []cty.Value { return []cty.Value{cty.StringVal(csvDocs[int(x.k%uint64(len(csvDocs)))])} }},
+	{"formatdate", stdlib.FormatDateFunc, nil, false, func(x *opctx) []cty.Value {
+		return []cty.Value{cty.StringVal(dateFormats[int(x.k%uint64(len(dateFormats)))]), cty.StringVal(timestamps[int((x.k/7)%uint64(len(timestamps)))])}
+	}},
+	{"timeadd", stdlib.TimeAddFunc, nil, false, func(x *opctx) []cty.Value {
+		return []cty.Value{cty.StringVal(timestamps[int(x.k%uint64(len(timestamps)))]), cty.StringVal(durations[int((x.k/5)%uint64(len(durations)))])}
+	}},
+	{"assertnotnull", stdlib.AssertNotNullFunc, nil, false, a1},
+	{"byteslen", stdlib.BytesLenFunc, nil, false, func(x *opctx) []cty.Value {
+		return []cty.Value{stdlib.BytesVal([]byte(conKeys[int(x.k%uint64(len(conKeys)))]))}
+	}},
+	{"bytesslice", stdlib.BytesSliceFunc, nil, false, func(x *opctx) []cty.Value {
+		return []cty.Value{stdlib.BytesVal([]byte("shared bytes " + conKeys[int(x.k%uint64(len(conKeys)))])), cty.Zero, smallInt(x)}
+	}},
+	{"tostring", toFns[0], nil, false, a1},
+	{"tonumber", toFns[1], nil, false, a1},
+	{"tolist(string)", toFns[2], nil, false, a1},
+	{"toset(dynamic)", toFns[3], nil, false, a1},
+	{"tomap(string)", toFns[4], nil, false, a1},
+}
+
+// conversion functions made once and shared, like an application's function table
+var toFns = []function.Function{
+	stdlib.MakeToFunc(cty.String), stdlib.MakeToFunc(cty.Number), stdlib.MakeToFunc(cty.List(cty.String)),
+	stdlib.MakeToFunc(cty.Set(cty.DynamicPseudoType)), stdlib.MakeToFunc(cty.Map(cty.String)),
+}
+
+var parseIntTexts = []string{"0", "-17", "zz", "777", "1010", "ff", "-ff", "12345678901234567890123", "9", "Z9", ""}
+var rePatterns = []string{"a+", "(?P<x>[a-z])(\\d*)", "^.", "é|e\u0301", "[[:upper:]]+", "(a)|(b)", "\\s*", "(", "x{2,3}", "(?i)k+"}
+var jsonDocs = []string{`{"a":[1,2,{"b":null}],"é":true}`, `[1,"x",[]]`, `"s"`, `1e3`, `{"a":1,"a":2}`, `[`, `null`}
+var csvDocs = []string{"a,b\n1,2\n3,4\n", "x\n", "a,a\n1,2\n", "a,b\n1\n", "\"q,1\",b\n\"x\"\"y\",z\n", ""}
+var dateFormats = []string{"YYYY-MM-DD'T'hh:mm:ssZ", "EEEE, DD-MMM-YY hh:mm:ss ZZZ", "h:mm aa 'on' D MMMM YYYY", "'unterminated", "M/D/YY HH AA ZZZZZ", ""}
+var timestamps = []string{"2006-01-02T15:04:05Z", "2020-02-29T23:59:59.75+05:30", "1999-12-31T00:00:00-11:00", "2006-01-02", "2038-01-19T03:14:08Z"}
+var durations = []string{"1h", "-90m", "1.5s", "36h10m0.25s", "bogus", "2562047h"}
+
+// rePattern: ten fixed patterns and, half of the time, one of 400 generated ones, so that anything keyed by the
+// pattern text keeps meeting new keys while the goroutines run.
+func rePattern(x *opctx) cty.Value {
+	if (x.k>>20)&1 == 1 {
+		return cty.StringVal(fmt.Sprintf("[a-k]{%d}|e+%d?", (x.k>>8)%20, (x.k>>13)%20))
+	}
+	return cty.StringVal(rePatterns[int(x.k%uint64(len(rePatterns)))])
+}
+
+func fmtSpec(x *opctx, base string) cty.Value {
+	if (x.k>>21)&1 == 1 {
+		return cty.StringVal(fmt.Sprintf("%s %d%%%%", base, (x.k>>9)%300))
+	}
+	return cty.StringVal(base)
 }
 
 func paramsFP(f function.Function) string {
